@@ -272,6 +272,7 @@ PROPS['C15']['nx'] = {'cursorrt': 'process_cursors followed by relocate_cursors 
 PROPS['C15']['not_decided'] = ['the attachment step process_cursors: bounded stand-in only', 'tracking never alters the result: type-level frame (relocate_cursors takes &FormattedTokens)']
 PROPS['C13']['nx']['lexnx'] = 'identifier_or_keyword against the keyword list for every keyword / near miss / short word, compiler_directive kind and extent (bounded stand-in; their Kani harnesses timed out)'
 PROPS['C15']['nx']['cursorml'] = 'MultilineContent positions, incl. ones that no longer fit a re-indented token, land inside the token (bounded stand-in; the Kani harness exhausts memory)'
+PROPS['C01'].setdefault('nx', {})['lexnx'] = 'the token-level contract the chain starts from (lossless split, leading parts consist of blanks only, contents start non-blank) executed on every text of <= 4 characters over 27 - the executable partner of the lexloop proof and of its one stub (bounded stand-in)'
 PROPS['C04'].setdefault('nx', {})['lexnx'] = 'the recursive directive-expression scanner returns (no panic, no endless loop) on 0.8 million nested forms (bounded stand-in; the loop proof assumes that sub-scanners return)'
 PROPS['C04']['nx'].update({'cursorml': 'no overflow / panic in the MultilineContent arm of relocate_cursors for 34 440 attached positions (bounded stand-in)', 'parsecover': 'parse() returns (no panic, no endless loop under a 5 s watchdog) for every token soup of <= 4 items and 39 204 well-formed programs (bounded stand-in)'})
 PROPS['C01']['nx']['directive'] = 'directive normalisation changes only ASCII letter case (bounded stand-in)'
